@@ -58,4 +58,10 @@ def obligations(tier, seed=0):
     for bits in (4, 7, 10, 13):
         obs.append(('checks.fam_twin:sqrtrem_loops', dict(bits=bits)))
     obs += pi_special_grid(RNDS, tier == 'thorough')
+    # powm1(x, y) is exactly 0 when x**y == 1
+    for prec in (20, 53):
+        obs.append((FE + 'powm1_exact', dict(case='y0', prec=prec)))
+        for ye in (0, 1, 3):
+            obs.append((FE + 'powm1_exact', dict(case='x1', yexp=ye, prec=prec)))
+            obs.append((FE + 'powm1_exact', dict(case='xm1', yexp=ye, prec=prec)))
     return obs
